@@ -15,7 +15,8 @@ import ast
 
 import sympy as sp
 
-from ..core.astutil import norm, ParentMap
+from ..core import spelling
+from ..core.astutil import norm, cn, ParentMap
 from ..core.cfg import CFG
 from ..core.loader import walk_no_nested
 from ..core.pattern import Matcher
@@ -177,7 +178,7 @@ def _pagerank(prog, rep):
         fn = norm(m.match(bvec[0].value, '(1 - %s) * $F' % d)['F'])
         fd = [s for s in stmts if isinstance(s, ast.Assign) and norm(s.targets[0]) == fn]
         vals = sorted(norm(s.value) for s in fd)
-        okb = vals == sorted(['np.ones((N,)) / N', 'falff / np.sum(falff)'])
+        okb = vals == sorted([cn('np.ones((N,)) / N'), cn('falff / np.sum(falff)')])
     rep.ob('P.right-hand-side', f, bvec[0] if bvec else 'b = (1 - d) * f / sum(f)', okb, 'right-hand side must be (1-d) times the normalised prior (uniform by default)', line=f.node.lineno)
     sol = [s for s in stmts if isinstance(s, ast.Assign) and B and bvec and m.match(s.value, 'linalg.solve(%s, %s)' % (norm(B[0].targets[0]), norm(bvec[0].targets[0])))]
     R = norm(sol[0].targets[0]) if sol else 'r'
@@ -207,7 +208,7 @@ def _mfpt(prog, rep):
     body = [s for s in _body(f) if not isinstance(s, ast.If)]
     env, vn = result_term(prog, f, body)
     got = env.get('<return>')
-    renv, _ = result_term(prog, f, ast.parse(MFPT_REF).body, param_map={'adjacency': f.params[0]})
+    renv, _ = result_term(prog, f, spelling.parse(MFPT_REF).body, param_map={'adjacency': f.params[0]})
     want = renv.get('C')
     rep.ob('M.fundamental-matrix-formula', f, 'return %s' % str(got)[:120], got is not None and want is not None and _eq(got, want),
            'result differs from (diag(Z) - Z) / W with Z = inv(I - P + W), P row-normalised, W the stationary distribution repeated in rows', line=f.node.lineno)
